@@ -153,7 +153,7 @@ def families(n, nsym, rng, count, must=None):
 
 SAV = 40      # a job that has produced this many counterexamples stops exploring (they are all replayed and reported)
 
-def make_jobs(Job, procs, tier, seed, canary_proc, quick_n3=2, thorough_n3_1=6, thorough_n3_2=1, must3=None, extra_params=None, n2=True):
+def make_jobs(Job, procs, tier, seed, canary_proc, quick_n3=5, thorough_n3_1=12, thorough_n3_2=1, must3=None, extra_params=None, n2=True):
     rng = random.Random(seed * 1000003 + 17)
     jobs = []; mod = 'harness.semjobs'
     xp = extra_params or {}
